@@ -354,9 +354,12 @@ def gen_header(rng, spec_header):
     return line, list(zip([f[0] for f in spec_header], exps))
 
 
-def gen_matrix(rng, n, tri, density=0.7):
-    """symmetric n×n matrix with zeros, rendered in L or U form with omissions.
-    returns (lines as (row, col, [float…]), expected matrix as list of lists of float)"""
+def gen_matrix(rng, n, tri, density=0.7, ctx=None):
+    """symmetric n×n matrix with zeros, rendered in L or U form, complete (every element of the triangle listed) or
+    with omissions, 1..3 values per line, and the lines in one of the layouts the format allows (every line carries
+    its own indices): row by row, rows last-to-first, column by column one element per line (packed column-major
+    storage), any order.  returns (lines as (row, col, [float…]), expected matrix as list of lists of float)"""
+    complete = rng.random() < 0.35
     A = [[0.0] * n for _ in range(n)]
     for i in range(n):
         for j in range(i + 1):
@@ -364,13 +367,14 @@ def gen_matrix(rng, n, tri, density=0.7):
                 v = float(f"{rng.uniform(-9.99, 9.99) * 10.0 ** rng.randint(-8, 8):.14E}")
                 A[i][j] = A[j][i] = v
     lines = []
-    per_line = rng.choice([1, 2, 3, 3])
+    layout = rng.choice(["rows", "rows", "rows", "rows-reversed", "columns", "shuffled"])
+    per_line = 1 if layout == "columns" else rng.choice([1, 2, 3, 3])
     for r in range(1, n + 1):
         cols = range(1, r + 1) if tri == "L" else range(r, n + 1)
         run = []  # current (start col, values)
         for c in cols:
             v = A[r - 1][c - 1]
-            write = v != 0.0 or rng.random() < 0.3  # zeros are sometimes written, mostly omitted
+            write = complete or v != 0.0 or rng.random() < 0.3  # zeros are sometimes written, mostly omitted
             if write:
                 if run and run[0] + len(run[1]) == c and len(run[1]) < per_line:
                     run[1].append(v)
@@ -384,6 +388,15 @@ def gen_matrix(rng, n, tri, density=0.7):
                 run = []
         if run:
             lines.append((r, run[0], run[1]))
+    if layout == "rows-reversed":
+        lines.reverse()
+    elif layout == "columns":
+        lines.sort(key=lambda l: (l[1], l[0]))
+    elif layout == "shuffled":
+        rng.shuffle(lines)
+    if ctx is not None:
+        ctx.count(f"matrix:{'complete' if complete else 'omissions'}:{tri}:{layout}")
+        ctx.count(f"matrix:values-per-line<={per_line}")
     return lines, A
 
 
@@ -559,7 +572,7 @@ def base_case(ctx, impl, drv, spec, rng, quick):
             if rng.random() < 0.1:
                 tri = tri.lower()
             typ = rng.choice(["COVA", "CORR", "INFO", ""]) if "NORMAL" not in m else rng.choice(["", "INFO"])
-            lines, A = gen_matrix(rng, n_mat, tri.upper(), density=rng.choice([0.2, 0.7, 1.0]))
+            lines, A = gen_matrix(rng, n_mat, tri.upper(), density=rng.choice([0.2, 0.7, 1.0]), ctx=ctx)
             b = matrix_block(m, fields, lines, tri, typ)
             mats[m] = (A, lines, tri, typ)
         elif m == "SOLUTION/ESTIMATE" and mat_sel:
